@@ -24,6 +24,7 @@ import (
 	"github.com/AdguardTeam/AdGuardDNS/internal/dnsserver"
 	"github.com/AdguardTeam/AdGuardDNS/internal/dnsserver/zzverif/vdns"
 	"github.com/AdguardTeam/AdGuardDNS/internal/dnsserver/zzverif/vrt"
+	"github.com/AdguardTeam/AdGuardDNS/internal/dnsserver/zzverif/xsched"
 	"github.com/miekg/dns"
 	"golang.org/x/exp/rand"
 )
@@ -86,6 +87,8 @@ type c17Call struct {
 	start   time.Time
 	end     time.Time
 	resp    *dns.Msg
+	// reqID is the ID of the request, to tell concurrent queries apart.
+	reqID uint16
 }
 
 // c17Env is the scripted environment of one case.
@@ -118,6 +121,10 @@ func (u *c17Ups) Exchange(_ context.Context, req *dns.Msg) (resp *dns.Msg, nw Ne
 	if probe {
 		o = u.probeOut
 	}
+	// Entering and leaving an exchange are scheduling points of the schedule
+	// explorer (part "race"); no-ops everywhere else.
+	xsched.Yield("upstream " + u.name + ": exchange begins")
+	defer xsched.Yield("upstream " + u.name + ": exchange ends")
 	start := time.Now()
 	addr := &net.UDPAddr{IP: net.IP{192, 0, 2, byte(10 + u.idx)}, Port: 53}
 	switch o {
@@ -179,7 +186,7 @@ func (u *c17Ups) Exchange(_ context.Context, req *dns.Msg) (resp *dns.Msg, nw Ne
 		logged = resp
 	}
 	u.env.calls = append(u.env.calls, c17Call{
-		ups: u, probe: probe, outcome: o, start: start, end: time.Now(), resp: logged,
+		ups: u, probe: probe, outcome: o, start: start, end: time.Now(), resp: logged, reqID: req.Id,
 	})
 
 	return resp, NetworkUDP, err
